@@ -121,6 +121,22 @@ TallClass(m, n, rowmap, zerocols) ==
 (* can be asked there, not the error path.                                 *)
 TallMustRefuse(m, n, rowmap, zerocols) == m < n \/ zerocols # {}
 
+(* Over-determined, inconsistent (noisy) tall systems: the least-squares    *)
+(* solution is the minimiser of the (weighted) residual norm, which does    *)
+(* not depend on the order of the equations.  Dimensions of the cases:     *)
+(* calibration type (solved as one system per driven column, or as one     *)
+(* system), number of reflect standards per port, the permutation applied  *)
+(* to the order of the standards, and `weighted`: whether a measurement-   *)
+(* error model scales every equation by 1/sqrt(nf^2 + tr^2 |m|^2).         *)
+WTypes  == <<"E12", "UE14", "T8">>
+WOrders == <<"reverse", "rotate", "throughFirst">>
+WeightedTallCases(lo, hi) ==
+    {[type |-> t, order |-> o, m1 |-> a, m2 |-> b, weighted |-> w] :
+        t \in 1..Len(WTypes), o \in 1..Len(WOrders), a \in lo..hi,
+        b \in lo..hi, w \in BOOLEAN}
+(* contract: both orders solve alike, and to the same result *)
+RowOrderContract(ok1, ok2, same) == ok1 = ok2 /\ (ok1 = 1 => same = 1)
+
 (* restricted growth strings: canonical row maps (set partitions of rows)  *)
 IsRGS(f) ==
     /\ f[1] = 1
